@@ -366,12 +366,9 @@ def C16.InterningStatement : Prop :=
     ((resolveAll (initTable ++ ext) ts)[i]? = (resolveAll (initTable ++ ext) ts)[j]?
       ↔ (ts[i].type, ts[i].lit) = (ts[j].type, ts[j].lit))
 
-/-- proved part of `C16.InterningStatement`: the `Intern` calls themselves (every value token:
-numbers, strings, comments, illegal bytes, non-keyword identifiers), with anything interned in
-between.  Also proved: `resolve_den` (each single call returns the pointer denoted by the token's
-key in an extension of `Init`'s table).  Missing for the full statement: the induction over `resolveAll` for streams that mix
-`Intern` with the constant pointers (`ConstantTokenChar(2)`, keywords, `EOLT/EOFT`), whose keys
-are disjoint from interned keys by `Tok.WF` and the finite tables. -/
+/-- the `Intern` calls alone (every value token: numbers, strings, comments, illegal bytes,
+non-keyword identifiers), with anything interned in between; a corollary-sized special case kept
+for reference — the full statement is `C16.interning` below -/
 theorem C16.interning_partial (tb : Table) (k1 k2 : Key) (ext : Table) :
     (intern ((intern tb k1).2 ++ ext) k2).1 = (intern tb k1).1 ↔ k2 = k1 :=
   C16.intern_unique tb k1 k2 ext
